@@ -20,6 +20,8 @@ SeqOps == {"ShiftLeft", "ShiftRight", "RotateLeft", "RotateRight", "Index", "Sli
 Leaves == {"PushSig", "PushConst"}
 AllOps == UnOps \cup BinOps \cup Leaves \cup SeqOps \cup {"Mux", "ArrayIndex"}
 ConstOps == {"PushConst", "Cat", "Slice", "Index", "SliceStep", "Replicate", "RotateLeft", "RotateRight"}
+(* a choice operator whose selector or branch is the result of one reinterpreting / complementing operator *)
+ChoiceOps == Leaves \cup {"Inv", "Neg", "AsSigned", "AsUnsigned", "ShiftRight", "Mux", "ArrayIndex"}
 TernOps ==Leaves \cup {"Mux", "ArrayIndex", "Cat"}
 Amts == {-5, -1, 0, 1, 2, 5}
 Amts2 == {-1, 1, 2}
